@@ -58,7 +58,7 @@ def run(w, scen, label):
 
 
 def sig(o):
-    return {"kind": o["result"] if o["result"] in ("crashed", "hung") else "gate", "fault": o["kind"], "shape": o["shape"],
+    return {"kind": o["result"] if o["result"] in ("crashed", "hung") else "gate", "fault": o["kind"], "shape": o["shape"], "in_readonly_dir": bool((o.get("scn") or {}).get("rodir")),
             "result": o["result"], "dst": o["dst"], "denotes": o["denotes"]}
 
 
@@ -99,6 +99,14 @@ def check(w):
         for rv in ("client", "daemon"):
             scen.append({"basis": s["basis"], "target": s["target"], "scale": 700, "recv": rv, "fault": s["fault"],
                          "shape": shape_name(s["basis"], s["target"])})
+    # ... and with the file inside a read-only (0555) directory under -p: the receiver still has a directory touch-up pass
+    # to run after the transfer has failed - the failure must stay a failure
+    for k, s in enumerate(base):
+        if quick and k % 3:
+            continue
+        for rv in ("client", "daemon"):
+            scen.append({"basis": s["basis"], "target": s["target"], "scale": 700, "recv": rv, "fault": s["fault"],
+                         "shape": shape_name(s["basis"], s["target"]), "rodir": True})
     for i, s in enumerate(scen):
         s["id"] = i + 1
     obs, summ = run(w, scen, "tok")
